@@ -72,6 +72,19 @@ def laws_oracle(ctx, sid, nsym, cls, B):
     if len(box) > 60:
         box = [box[k] for k in sorted(rng.sample(range(len(box)), 60))]
     bad = None
+    # results are canonical and depend only on the class of the inputs, also for NON-canonical inputs
+    def canon_t(t): return [x if m is None else x % m for m, x in zip(mods, t)]
+    for _ in range(80):
+        k = rng.randint(1, 3)
+        ch = [[rng.randint(-7, 7) for _m in mods] for _ in range(k)]
+        sg = [rng.choice([1, -1]) for _ in range(k)]
+        sn = rng.choice([1, -1])
+        r = f(ch, sg, sn)
+        ctx.count('laws_noncanonical')
+        if not inrange(r):
+            bad = ('canonical', ch, sg, sn, r)
+        elif r != f([canon_t(t) for t in ch], sg, sn):
+            bad = ('well-defined-on-classes', ch, sg, sn)
     for a in box:
         ctx.count('laws_points')
         if add(zero, a) != a or add(a, zero) != a:
@@ -121,6 +134,21 @@ def num_token(rng, kind):
 def gen_leg_case(rng, sid, nsym, mods):
     nsec = rng.choice([0, 1, 1, 2, 2, 3, 4])
     valid_bias = rng.random() < 0.6
+    if rng.random() < 0.2 and any(m is not None for m in mods):
+        # otherwise valid leg with one charge moved outside the canonical range
+        ts = []
+        for _try in range(40):
+            if len(ts) >= max(1, nsec):
+                break
+            t = rand_charge(rng, mods, 3, True)
+            if t not in ts:
+                ts.append(t)
+        j = rng.randrange(len(ts))
+        c = rng.choice([k for k, m in enumerate(mods) if m is not None])
+        ts[j][c] += mods[c] * rng.choice([1, -1, 2])
+        Ds = [rng.randint(1, 4) for _ in ts]
+        s = rng.choice([1, -1])
+        return dict(sym=sid, s=s, t=tuple(tuple(t) for t in ts), D=tuple(Ds)), ([s], [[x] for t in ts for x in t], [[d] for d in Ds])
     # charges
     ts, seen = [], set()
     for _ in range(nsec):
